@@ -3,10 +3,12 @@ import vlib, simcommon
 
 PROP = "C15"
 PROPS_FILE = "props/C15.v"
-COQ_FILES = ["gen/Gen.v", "proofs/SnaProofs.v", "model/Sender.v", "proofs/SenderProofs.v", "props/C15.v"]
+COQ_FILES = ["gen/Gen.v", "proofs/SnaProofs.v", "model/Sender.v", "proofs/SenderProofs.v", "model/StreamW.v",
+             "proofs/StreamWProofs.v", "props/C15.v"]
 TRUSTED_BASE = [
     "Coq 8.16.1 kernel; vm_compute only in Examples; no native_compute",
-    "hand-written model coq/model/Sender.v (Stream.packetize / onBufferReleased, processSelectiveAck byte accounting, markAsAcked)",
+    "hand-written models coq/model/Sender.v (Stream.packetize / onBufferReleased, processSelectiveAck byte accounting, markAsAcked) "
+    "and coq/model/StreamW.v (Stream.WriteSCTP incl. the roll-back of a refused write)",
     "extraction (ExtrOcamlBasic) + ocaml/cmp_sender.ml; simulator harness (overlay, synctest, go1.26.8)",
     "modelled, not verified: the callback is invoked after Stream.lock is released (read off stream.go:onBufferReleased; the lock-set "
     "computation of C20 covers it), goroutine scheduling",
@@ -27,6 +29,7 @@ TECHNIQUE = "Coq proof (accounting invariant over histories) + step-commuting co
 def correspondence(ctx):
     vlib.differential(ctx, "sender-step-commuting", "TestVerifSimSender", "sender",
                       {"VERIF_N": ctx.scale(40, 1500), "VERIF_EVENTS": 250}, timeout=3000)
+    vlib.differential(ctx, "streamw-differential", "TestVerifStreamW", "streamw", {"VERIF_N": ctx.scale(300, 6000)})
     simcommon.transfer(ctx)
     simcommon.sim_monitor(ctx, "buffered-low-callback", "TestVerifScenBufferedLow", {"VERIF_N": ctx.scale(20, 300)}, "SCENBUFLOW")
 
